@@ -131,11 +131,11 @@ def eigFull (n : Nat) (tol : Float) (A : Mat Float) : EigArr :=
   if absTol != 0 then eigLoop n tol absTol 21 0 st0 else st0
 
 def ear33Line (a : Array Float) : String :=
-  match ear33 tmaxF (lengthV2 tminF Float.sqrt) (m33Of a 0) with
+  match ear33 tmaxF (lengthV2 tminF tmaxF Float.sqrt) (m33Of a 0) with
   | none => "0"
   | some r => "1 " ++ strs (m33L r.m ++ [r.scl.x, r.scl.y, r.shr])
 def ear44Line (a : Array Float) : String :=
-  match ear44 tmaxF (lengthV3 tminF Float.sqrt) (m44Of a 0) with
+  match ear44 tmaxF (lengthV3 tminF tmaxF Float.sqrt) (m44Of a 0) with
   | none => "0"
   | some r => "1 " ++ strs (m44L r.m ++ [r.scl.x, r.scl.y, r.scl.z, r.shr.x, r.shr.y, r.shr.z])
 
@@ -145,8 +145,8 @@ def handle (ws : List String) : String :=
   match ws with
   | "ear33" :: rest => ear33Line (rest.map pf).toArray
   | "ear44" :: rest => ear44Line (rest.map pf).toArray
-  | ["len2", x, y] => fstr (lengthV2 tminF Float.sqrt ⟨pf x, pf y⟩)
-  | ["len3", x, y, z] => fstr (lengthV3 tminF Float.sqrt ⟨pf x, pf y, pf z⟩)
+  | ["len2", x, y] => fstr (lengthV2 tminF tmaxF Float.sqrt ⟨pf x, pf y⟩)
+  | ["len3", x, y, z] => fstr (lengthV3 tminF tmaxF Float.sqrt ⟨pf x, pf y, pf z⟩)
   | "jstep3" :: j :: k :: tol :: rest =>
     let a := (rest.map pf).toArray
     let r := twoSidedJacobiRotation (pf tol) Float.sqrt j.toNat! k.toNat!
